@@ -72,15 +72,28 @@ def strip_comments(src):
     return "\n".join(ln.split("--")[0] for ln in src.split("\n"))
 
 
-def audit_sources():
+def import_cone(module):
+    """files of the Alos2 library reachable from `module` through `import Alos2.*` lines"""
+    seen, todo = {}, [module]
+    while todo:
+        m = todo.pop()
+        if m in seen:
+            continue
+        path = os.path.join(LEAN, *m.split(".")) + ".lean"
+        if not os.path.exists(path):
+            continue
+        seen[m] = path
+        for imp in re.findall(r"^import\s+(Alos2\.\S+)", open(path, encoding="utf-8").read(), flags=re.M):
+            todo.append(imp)
+    return seen
+
+
+def audit_sources(module):
     bad = []
-    for root, _, files in os.walk(os.path.join(LEAN, "Alos2")):
-        for fn in files:
-            if fn.endswith(".lean"):
-                p = os.path.join(root, fn)
-                for i, ln in enumerate(strip_comments(open(p, encoding="utf-8").read()).split("\n"), 1):
-                    if FORBIDDEN.search(ln):
-                        bad.append(f"{os.path.relpath(p, LEAN)}:{i}: {ln.strip()[:80]}")
+    for m, p in sorted(import_cone(module).items()):
+        for i, ln in enumerate(strip_comments(open(p, encoding="utf-8").read()).split("\n"), 1):
+            if FORBIDDEN.search(ln):
+                bad.append(f"{os.path.relpath(p, LEAN)}:{i}: {ln.strip()[:80]}")
     return bad
 
 
@@ -169,7 +182,7 @@ def check(pid, tier, seed):
         bok, blog, bsec = lake_build([lean_module, "Alos2"])
         if not bok:
             broken.append(("lake build " + lean_module, blog[-1500:]))
-        forb = audit_sources()
+        forb = audit_sources(lean_module)
         if forb:
             broken.append(("forbidden constructs in lean sources", "; ".join(forb[:5])))
         thms = theorems_of(os.path.join(LEAN, "Alos2", "Props", f"{pid}.lean"))
